@@ -136,6 +136,19 @@ Theorem C14_cached_shortcut_refuted :
 Proof. exact cached_shortcut_refuted. Qed.
 Print Assumptions C14_cached_shortcut_refuted.
 
+(* the daemon's launch step "record the runner's pid" (command.go runCommand) must therefore be an
+   update of the STORED record.  Recording it by Save of the daemon's in-memory copy (seeded
+   mutation) is exactly the refuted composition above: the copy was read before the runner wrote
+   (OLoad), the runner updates the record (OUpd), the Save puts the stale copy back - the very
+   witness of C14_load_then_save_refuted, restated here under its own name *)
+Theorem C14_pid_recorded_by_save_refuted :
+  let c := run true loadsave_sched (init (FRec (0, 0)) loadsave_and_writer) in
+  all_done c = true /\ c_lock c = None /\
+  upd_fns (c_order c) = [inc_fst] /\ c_file c = FRec (0, 0) /\
+  apply_all (upd_fns (c_order c)) (0, 0) = (1, 0).
+Proof. exact load_then_save_refuted. Qed.
+Print Assumptions C14_pid_recorded_by_save_refuted.
+
 (* non-vacuity: with the lock, the schedule of the refutation (completed) loses nothing *)
 Example C14_nonvacuous :
   let c := run true (lost_sched ++ [1; 1; 1; 1; 1; 1; 1]%nat) (init (FRec (0, 0)) two_writers) in
